@@ -143,7 +143,7 @@ def run(ctx, rep, tier):
     rep.check("return self[DFTransition.Else]" in gsrc and "if DFTransition.Else != data" in gsrc, "C17.d", "DFState.__getitem__", "falls back to Else",
               "DFState.__getitem__ no longer falls back to the Else transition")
     fp = E.enumerate(ESB)
-    n_taken = n_plain = 0
+    n_taken = n_plain = n_goes_on = 0
     for p in fp.paths:
         items = fp.lines(p)
         if not items and p.end and p.end[0] == "return":
@@ -153,8 +153,19 @@ def run(ctx, rep, tier):
         calls = [e for e in evs if e.kind == "CALLBLOCK"]
         rets = [e for e in evs if e.kind == "RET"]
         key = ", ".join(f"{k}={'T' if b else 'F'}" for k, b in sorted(v.items()) if "DFConditionPoint" not in k)
+        goes_on = evs and evs[-1].kind == "GOTO" and evs[-1].a == "repeatswitch" and not rets
+        if goes_on:
+            # F-78: the only tail that is not a return - an `end` pattern matched (End listed by the taken, non-fallthrough move) and the program is not over
+            fall = next((b for k, b in v.items() if k.endswith(".is_fallthrough")), None)
+            explicit = next((b for k, b in v.items() if k.startswith("DFTransition.End in ") and k.endswith(".on_values")), None)
+            tgt = [b for k, b in v.items() if k.endswith(".target in self.dfa.accepting_states")]
+            n_goes_on += 1
+            rep.check(bool(calls) and fall is False and explicit is True and tgt == [False], "C17.d", ESB, f"re-dispatch only after a matched `end` pattern into a non-accepting state [{key}]",
+                      "end() re-dispatches (goto repeatswitch) on a path that is not 'a non-fallthrough move that lists End was taken and its target is not accepting': an Else standing for "
+                      "end-of-input is a data pattern (a wait's self-loop would spin), a fall-through re-dispatches by itself, an accepting target answers DONE")
+            continue
         if len(rets) != 1 or evs[-1].kind != "RET":
-            rep.bad("C17.d", ESB, f"tail [{key}]", "per-state end body must end in exactly one return")
+            rep.bad("C17.d", ESB, f"tail [{key}]", "per-state end body must end in exactly one return (or re-dispatch after a matched `end` pattern)")
             continue
         acc_atoms = {k: b for k, b in v.items() if k.endswith("in self.dfa.accepting_states")}
         if calls:
@@ -173,6 +184,12 @@ def run(ctx, rep, tier):
             if fall is False:
                 tgt = {k: b for k, b in acc_atoms.items() if ".target in" in k}
                 ok = len(tgt) == 1 and rets[0].a == ("DONE" if list(tgt.values())[0] else "FAIL")
+                explicit = next((b for k, b in v.items() if k.startswith("DFTransition.End in ") and k.endswith(".on_values")), None)
+                if ok and rets[0].a == "FAIL":
+                    # FAIL after a taken move is only right when no `end` pattern matched (the Else stood for end-of-input): otherwise the program goes on
+                    rep.check(explicit is False, "C17.d", ESB, f"FAIL after a taken end move only when End is not listed by it [{key}]",
+                              "after an `end` pattern matched, end() answers FAIL for a non-accepting target instead of going on from there: `\"a\"; end; yield Y; h();` "
+                              "returns FAIL below -O3 (the statements after `end` are zero-width steps from the target)")
                 rep.check(ok, "C17.d", ESB, "after a taken non-fallthrough end move: DONE iff the target is accepting",
                           f"tail returns {rets[0].a} deciding on {sorted(acc_atoms)}: after taking a non-fallthrough End transition the parser is in the "
                           "transition's target, whose acceptance must decide DONE/FAIL (with strict-done `\"a\"; end;` returned FAIL)")
@@ -243,7 +260,7 @@ def _end_redirects_and_joins(ctx, rep, tier):
     # C17.g - end(): an action of the taken end transition may redirect at run time; the answer must follow the state really reached
     q = "CodegenCtx._generate_end_switch_body"
     rep.rule("C17.g", "end(): when an action of the taken (consuming) end transition can redirect, states that answer differently from the nominal target get a run-time test before the static DONE/FAIL")
-    ok = model.has(q, "if not unconditional_end_transition.is_fallthrough:\n    final_state = unconditional_end_transition.target\n    for action in unconditional_end_transition.actions:\n"
+    ok = model.has(q, "if not unconditional_end_transition.is_fallthrough:\n    final_state = unconditional_end_transition.target\n    ...\n    for action in unconditional_end_transition.actions:\n"
                       "        for subaction in action.all_subactions():\n            if subaction.get_target_override_mode() != ActionOverrideMode.NONE:\n"
                       "                redirected_to.update(subaction.get_target_override_targets())")
     rep.check(ok, "C17.g", q, "override targets of every (sub-)action of the taken end transition are collected", "end() ignores where an action of the end transition may redirect: a break under an if taken in an "
